@@ -477,14 +477,20 @@ def property_dependency_check(prop):
     if dep is None:
         return
 
+    # The dependency is the name of another Property of the same Section.
     try:
-        dep_obj = prop.parent[dep]
+        dep_obj = prop.parent.properties[dep]
     except KeyError:
         msg = "Property refers to a non-existent dependency object"
         yield ValidationError(prop, msg, LABEL_WARNING, validation_id)
         return
 
-    if prop.dependency_value not in dep_obj.values[0]:
+    dep_val = prop.dependency_value
+    if dep_val is None:
+        return
+
+    if dep_val not in dep_obj.values and \
+            str(dep_val) not in [str(val) for val in dep_obj.values]:
         msg = "Dependency-value is not equal to value of the property's dependency"
         yield ValidationError(prop, msg, LABEL_WARNING, validation_id)
 
